@@ -97,7 +97,7 @@ class Check:
         return False
 
     def write_replay(self, job, desc, vals, info, outs, res, k=1):
-        d = kani.ensure_dir(os.path.join(VERIF, "replays", self.pid))
+        d = kani.ensure_dir(os.path.join(os.environ.get("VERIF_REPLAY_DIR") or os.path.join(VERIF, "replays"), self.pid))
         path = os.path.join(d, f"{job.jid}.{k}.json")
         json.dump({
             "property": self.pid, "job": job.jid, "harness": job.harness,
@@ -179,8 +179,9 @@ class Check:
             "coverage": cov, "assumptions": self.assumptions, "wall_s": round(wall, 1),
             "violations": len(self.violations),
         }
-        kani.ensure_dir(os.path.join(VERIF, "evidence"))
-        json.dump(ev, open(os.path.join(VERIF, "evidence", self.pid + ".json"), "w"), indent=1)
+        evdir = os.environ.get("VERIF_EVIDENCE_DIR") or os.path.join(VERIF, "evidence")
+        kani.ensure_dir(evdir)
+        json.dump(ev, open(os.path.join(evdir, self.pid + ".json"), "w"), indent=1)
 
         for f, jid in self.known_hits:
             print(f"KNOWN-FINDING: property={self.pid} {f['key']}: {f['what']}")
